@@ -27,6 +27,8 @@ class Hub:
     def __init__(self):
         self.trace = []
         self.fault_in = None      # k more writes succeed, the next raises
+        self.fault_exc = "Fault"  # class of the injected exception
+        self.last_fault = None    # the injected exception object, once raised
         self.quiet = 0            # >0: writes are not logged (inside a function-task action)
         self.nwrites = 0
 
@@ -35,7 +37,12 @@ class Hub:
         if self.fault_in is not None:
             if self.fault_in == 0:
                 self.fault_in = None
-                raise Fault("injected")
+                # the container may raise anything: the library has to let every exception class through unchanged
+                cls = {"Fault": Fault, "StopIteration": StopIteration, "KeyError": KeyError, "RuntimeError": RuntimeError,
+                       "LookupError": LookupError, "ArithmeticError": ArithmeticError, "AttributeError": AttributeError,
+                       "GeneratorExit_like": Fault}[self.fault_exc]
+                self.last_fault = cls("injected")
+                raise self.last_fault
             self.fault_in -= 1
         if not self.quiet:
             self.trace.append(["w", path])
@@ -297,6 +304,7 @@ class ImplMgr:
                 self.rootrefs[lab] = self.m.ref(c, lab)
             elif kind == "fault":
                 hub.fault_in = op["k"]
+                hub.fault_exc = op.get("exc", "Fault")
             elif kind == "set":
                 v = op["value"]
                 v = float("nan") if v == "nan" else v
@@ -394,9 +402,19 @@ class ImplMgr:
             exc = "RecursionError"
         except Exception as e:  # noqa
             exc = type(e).__name__
+            # the injected exception itself (whatever its class), or one raised from it, counts as the fault
+            chain, seen = e, 0
+            while chain is not None and seen < 6:
+                if chain is hub.last_fault:
+                    exc = "Fault"
+                    break
+                chain, seen = (chain.__cause__ or chain.__context__), seen + 1
             # a KeyError whose key is a reference (or a task) comes from the manager's own tables, not from the data
             if isinstance(e, KeyError) and e.args and isinstance(e.args[0], (xr.BaseRef,)):
                 extra["internal_keyerror"] = str(e.args[0])
+        if hub.last_fault is not None:
+            extra["fault_fired"] = True
+            hub.last_fault = None
         hub.fault_in = None if kind != "fault" else hub.fault_in
         line = dict(op)
         impl = self.observe(exc)
